@@ -68,42 +68,47 @@ impl PN {
     }
 }
 
-// the pool of names; the zone is "z."
-const N_APEX: usize = 0; // z.
-const N_D: usize = 1; // d.z.      a delegation
-const N_WILD: usize = 2; // *.z.
-const N_NSD: usize = 3; // ns.d.z.   name server inside the delegation d.z.
-const N_NSZ: usize = 4; // ns.z.     name server inside the zone proper
-const N_E: usize = 5; // e.z.      a sibling delegation
-const N_NSE: usize = 6; // ns.e.z.   name server inside the sibling delegation
-const N_MX: usize = 7; // mx.z.     mail exchanger inside the zone
-const N_OUT: usize = 8; // x.        outside the zone
-const N_H: usize = 9; // h.z.      ordinary host
+// the pool of names; the zone is the root zone "." (the shortest possible
+// names: every label of every name costs one unwinding of the name parser
+// and of `Name == Name`, and heap data - the `Vec` scan_node's RRsets are
+// collected into, every `Box<Name>` - is symbolic to CBMC, so all loops over
+// it run to the unwind bound; with apex "z." and unwind 6 a one-node zone
+// did not finish 85 min of symbolic execution, measured)
+const N_APEX: usize = 0; // .
+const N_D: usize = 1; // d.        a delegation
+const N_WILD: usize = 2; // *.
+const N_NSD: usize = 3; // ns.d.     name server inside the delegation d.
+const N_NSZ: usize = 4; // ns.       name server inside the zone proper
+const N_E: usize = 5; // e.        a sibling delegation
+const N_NSE: usize = 6; // ns.e.     name server inside the sibling delegation
+const N_MX: usize = 7; // mx.       mail exchanger inside the zone
+const N_OUT: usize = 8; // x.        a name the zone disowns (answers WrongZone / anything the harness says)
+const N_H: usize = 9; // h.        ordinary host
 const NPOOL: usize = 10;
 
-static R_APEX: [u8; 6] = [2, 0, 2, 1, b'z', 0];
-static R_D: [u8; 9] = [3, 0, 2, 4, 1, b'd', 1, b'z', 0];
-static R_WILD: [u8; 9] = [3, 0, 2, 4, 1, b'*', 1, b'z', 0];
-static R_NSD: [u8; 13] = [4, 0, 3, 5, 7, 2, b'n', b's', 1, b'd', 1, b'z', 0];
-static R_NSZ: [u8; 10] = [3, 0, 3, 5, 2, b'n', b's', 1, b'z', 0];
-static R_E: [u8; 9] = [3, 0, 2, 4, 1, b'e', 1, b'z', 0];
-static R_NSE: [u8; 13] = [4, 0, 3, 5, 7, 2, b'n', b's', 1, b'e', 1, b'z', 0];
-static R_MX: [u8; 10] = [3, 0, 3, 5, 2, b'm', b'x', 1, b'z', 0];
+static R_APEX: [u8; 3] = [1, 0, 0];
+static R_D: [u8; 6] = [2, 0, 2, 1, b'd', 0];
+static R_WILD: [u8; 6] = [2, 0, 2, 1, b'*', 0];
+static R_NSD: [u8; 10] = [3, 0, 3, 5, 2, b'n', b's', 1, b'd', 0];
+static R_NSZ: [u8; 7] = [2, 0, 3, 2, b'n', b's', 0];
+static R_E: [u8; 6] = [2, 0, 2, 1, b'e', 0];
+static R_NSE: [u8; 10] = [3, 0, 3, 5, 2, b'n', b's', 1, b'e', 0];
+static R_MX: [u8; 7] = [2, 0, 3, 2, b'm', b'x', 0];
 static R_OUT: [u8; 6] = [2, 0, 2, 1, b'x', 0];
-static R_H: [u8; 9] = [3, 0, 2, 4, 1, b'h', 1, b'z', 0];
+static R_H: [u8; 6] = [2, 0, 2, 1, b'h', 0];
 
 fn pool(i: usize) -> PN {
     match i {
-        N_APEX => PN { repr: &R_APEX, wire_at: 3 },
-        N_D => PN { repr: &R_D, wire_at: 4 },
-        N_WILD => PN { repr: &R_WILD, wire_at: 4 },
-        N_NSD => PN { repr: &R_NSD, wire_at: 5 },
-        N_NSZ => PN { repr: &R_NSZ, wire_at: 4 },
-        N_E => PN { repr: &R_E, wire_at: 4 },
-        N_NSE => PN { repr: &R_NSE, wire_at: 5 },
-        N_MX => PN { repr: &R_MX, wire_at: 4 },
+        N_APEX => PN { repr: &R_APEX, wire_at: 2 },
+        N_D => PN { repr: &R_D, wire_at: 3 },
+        N_WILD => PN { repr: &R_WILD, wire_at: 3 },
+        N_NSD => PN { repr: &R_NSD, wire_at: 4 },
+        N_NSZ => PN { repr: &R_NSZ, wire_at: 3 },
+        N_E => PN { repr: &R_E, wire_at: 3 },
+        N_NSE => PN { repr: &R_NSE, wire_at: 4 },
+        N_MX => PN { repr: &R_MX, wire_at: 3 },
         N_OUT => PN { repr: &R_OUT, wire_at: 3 },
-        _ => PN { repr: &R_H, wire_at: 4 },
+        _ => PN { repr: &R_H, wire_at: 3 },
     }
 }
 
@@ -163,19 +168,19 @@ static RS_SOA2: [u8; 48] = [
     22, 0, 0, 0, 0, 0, 0, 2, 0, 0, 0, 0, 0, 0, 0, 0, 0, 0, 0, 0, 0, 0, 0, 7,
 ];
 // NS sets
-static RS_NS_NSZ: [u8; 8] = [6, 0, 2, b'n', b's', 1, b'z', 0];
-static RS_NS_NSD: [u8; 10] = [8, 0, 2, b'n', b's', 1, b'd', 1, b'z', 0];
-static RS_NS_NSE: [u8; 10] = [8, 0, 2, b'n', b's', 1, b'e', 1, b'z', 0];
+static RS_NS_NSZ: [u8; 6] = [4, 0, 2, b'n', b's', 0];
+static RS_NS_NSD: [u8; 8] = [6, 0, 2, b'n', b's', 1, b'd', 0];
+static RS_NS_NSE: [u8; 8] = [6, 0, 2, b'n', b's', 1, b'e', 0];
 static RS_NS_OUT: [u8; 5] = [3, 0, 1, b'x', 0];
-static RS_NS_NSD_NSZ: [u8; 18] = [
-    8, 0, 2, b'n', b's', 1, b'd', 1, b'z', 0, //
-    6, 0, 2, b'n', b's', 1, b'z', 0,
+static RS_NS_NSD_NSZ: [u8; 14] = [
+    6, 0, 2, b'n', b's', 1, b'd', 0, //
+    4, 0, 2, b'n', b's', 0,
 ];
 // CNAME sets (targets are never looked up)
-static RS_CNAME1: [u8; 7] = [5, 0, 1, b'h', 1, b'z', 0];
-static RS_CNAME2: [u8; 14] = [5, 0, 1, b'h', 1, b'z', 0, 5, 0, 1, b'd', 1, b'z', 0];
+static RS_CNAME1: [u8; 5] = [3, 0, 1, b'h', 0];
+static RS_CNAME2: [u8; 10] = [3, 0, 1, b'h', 0, 3, 0, 1, b'd', 0];
 // MX sets: 16-bit preference + exchange
-static RS_MX_MX: [u8; 10] = [8, 0, 0, 10, 2, b'm', b'x', 1, b'z', 0];
+static RS_MX_MX: [u8; 8] = [6, 0, 0, 10, 2, b'm', b'x', 0];
 
 const T_A: u16 = 1;
 const T_NS: u16 = 2;
@@ -723,10 +728,10 @@ fn no_table() -> [[Ans; 2]; NPOOL] {
 // the LAST one the symbolic answer.  (Measured: two symbolic answers that can
 // each add a named issue make `HashSet::contains` compare heap `Name`s under
 // symbolic control flow; that ran out of memory at 14.9 GB.)
-static RS_NS_OUT_NSZ: [u8; 13] = [3, 0, 1, b'x', 0, 6, 0, 2, b'n', b's', 1, b'z', 0];
-static RS_MX_NSZ_MX: [u8; 20] = [
-    8, 0, 0, 5, 2, b'n', b's', 1, b'z', 0, //
-    8, 0, 0, 10, 2, b'm', b'x', 1, b'z', 0,
+static RS_NS_OUT_NSZ: [u8; 11] = [3, 0, 1, b'x', 0, 4, 0, 2, b'n', b's', 0];
+static RS_MX_NSZ_MX: [u8; 16] = [
+    6, 0, 0, 5, 2, b'n', b's', 0, //
+    6, 0, 0, 10, 2, b'm', b'x', 0,
 ];
 
 static S_NS_NSD: [SetV; 1] = [SetV { rtype: T_NS, raw: &RS_NS_NSD }];
@@ -742,8 +747,7 @@ static S_CNAME1_A: [SetV; 2] = [SetV { rtype: T_CNAME, raw: &RS_CNAME1 }, SetV {
 static S_TXT_CNAME2: [SetV; 2] = [SetV { rtype: T_TXT, raw: &RS_TXT }, SetV { rtype: T_CNAME, raw: &RS_CNAME2 }];
 static S_MX_MX: [SetV; 1] = [SetV { rtype: T_MX, raw: &RS_MX_MX }];
 static S_MX_NSZ_MX: [SetV; 1] = [SetV { rtype: T_MX, raw: &RS_MX_NSZ_MX }];
-static S_APEX_FULL: [SetV; 4] = [
-    SetV { rtype: T_SOA, raw: &RS_SOA1 },
+static S_APEX_FULL: [SetV; 3] = [
     SetV { rtype: T_NS, raw: &RS_NS_NSZ },
     SetV { rtype: T_MX, raw: &RS_MX_MX },
     SetV { rtype: T_TXT, raw: &RS_TXT },
@@ -762,10 +766,7 @@ static NODES_CLEAN: [NodeV; 3] = [
     NodeV { owner: N_D, sets: &S_NS_NSD },
     NodeV { owner: N_WILD, sets: &S_A_TXT },
 ];
-static NODES_DIRTY: [NodeV; 2] = [
-    NodeV { owner: N_D, sets: &S_NS_NSD_CNAME2 },
-    NodeV { owner: N_WILD, sets: &S_NS_OUT },
-];
+static NODES_DIRTY: [NodeV; 1] = [NodeV { owner: N_D, sets: &S_NS_NSD_CNAME2 }];
 static NODES_DEDUPE: [NodeV; 3] = [
     NodeV { owner: N_APEX, sets: &S_MX_MX },
     NodeV { owner: N_D, sets: &S_NS_NSZ },
@@ -779,7 +780,7 @@ static NODES_H_A_TXT: [NodeV; 1] = [NodeV { owner: N_H, sets: &S_A_TXT }];
 
 const FOUND_A: Ans = Ans::Found { a: true, aaaa: false };
 
-/// Facts of a zone whose apex is in order (one SOA, NS ns.z. with an A record).
+/// Facts of a zone whose apex is in order (one SOA, NS ns. with an A record).
 fn base<'f>(
     class: Class,
     class_code: u16,
@@ -814,7 +815,7 @@ static H_OUT_NSZ_GLUE: [(usize, bool); 3] = [(N_OUT, false), (N_NSZ, false), (N_
 static H_NSZ_MX: [(usize, bool); 2] = [(N_NSZ, false), (N_MX, false)];
 static H_NSZ_NSZ_MX: [(usize, bool); 3] = [(N_NSZ, false), (N_NSZ, false), (N_MX, false)];
 static H_CLEAN: [(usize, bool); 4] = [(N_NSZ, false), (N_MX, false), (N_NSD, false), (N_NSD, true)];
-static H_DIRTY: [(usize, bool); 3] = [(N_NSD, false), (N_NSD, true), (N_OUT, false)];
+static H_DIRTY: [(usize, bool); 2] = [(N_NSD, false), (N_NSD, true)];
 static H_DEDUPE: [(usize, bool); 4] = [(N_NSZ, false), (N_MX, false), (N_NSZ, false), (N_MX, false)];
 
 // --------------------------------------------------------------------------
@@ -823,10 +824,10 @@ static H_DEDUPE: [(usize, bool); 4] = [(N_NSZ, false), (N_MX, false), (N_NSZ, fa
 
 // @harness props=C21 tier=quick mem=3 t=900
 //   fn="validation::validate,ValidationIssue::is_error"
-//   bound="zones without nodes: soa() in {none, 1 RDATA, 2 RDATA} x ns() in {none, {ns.z.} with an address} (6 concrete zones, validated one after the other); class in {IN,CH,HS} and glue policy symbolic; unwind 6"
+//   bound="zones without nodes: soa() in {none, 1 RDATA, 2 RDATA} x ns() in {none, {ns.} with an address} (6 concrete zones, validated one after the other); class in {IN,CH,HS} and glue policy symbolic; unwind 4"
 //   sym="class, policy" stubs="S1,M1"
 #[kani::proof]
-#[kani::unwind(6)]
+#[kani::unwind(4)]
 fn c21_apex_soa_ns_presence() {
     let (class, class_code) = any_class();
     let (policy, wide) = any_policy();
@@ -852,10 +853,10 @@ fn c21_apex_soa_ns_presence() {
 
 // @harness props=C21 tier=quick mem=4 t=1200
 //   fn="validation::validate,check_apex_ns_address,class_has_addrs,addrs_found"
-//   bound="zone without nodes, one SOA, ns() = {ns.z.}; lookup_addrs(ns.z.) symbolic: Found with any of A/AAAA present, Cname, NxDomain, Referral(d.z.), WrongZone; class in {IN,CH,HS} and policy symbolic; unwind 6"
+//   bound="zone without nodes, one SOA, ns() = {ns.}; lookup_addrs(ns.) symbolic: Found with any of A/AAAA present, Cname, NxDomain, Referral(d.), WrongZone; class in {IN,CH,HS} and policy symbolic; unwind 4"
 //   sym="class, policy, 1 table entry" stubs="S1,M1"
 #[kani::proof]
-#[kani::unwind(6)]
+#[kani::unwind(4)]
 fn c21_apex_ns_one() {
     let (class, class_code) = any_class();
     let (policy, wide) = any_policy();
@@ -882,22 +883,22 @@ fn apex_ns_two(first: Ans) -> (IssueSet, Ans, u16) {
 
 // @harness props=C21 tier=quick mem=4 t=1200
 //   fn="validation::validate,check_apex_ns_address"
-//   bound="zone without nodes, ns() = {x., ns.z.}; x. answered WrongZone (out of zone), lookup_addrs(ns.z.) symbolic (all 5 kinds, A/AAAA presence); class, policy symbolic; unwind 6"
+//   bound="zone without nodes, ns() = {x., ns.}; x. answered WrongZone (out of zone), lookup_addrs(ns.) symbolic (all 5 kinds, A/AAAA presence); class, policy symbolic; unwind 4"
 //   sym="class, policy, 1 table entry" stubs="S1,M1"
 #[kani::proof]
-#[kani::unwind(6)]
+#[kani::unwind(4)]
 fn c21_apex_ns_two_outside() {
     let (e, t, cc) = apex_ns_two(Ans::WrongZone);
     kani::cover!(e.is_empty() && cc == 1, "out-of-zone and addressed name servers: clean");
     kani::cover!(e.has(K_NS_ADDR, N_NSZ) && !e.has(K_NS_ADDR, N_OUT) && matches!(t, Ans::NxDomain), "only the in-zone name server is reported");
 }
 
-// @harness props=C21 tier=quick mem=6 t=1800
+// @harness props=C21 tier=quick mem=6 t=1800 cbmc="--max-field-sensitivity-array-size 256"
 //   fn="validation::validate,check_apex_ns_address"
-//   bound="zone without nodes, ns() = {x., ns.z.}; x. answered NxDomain (always an issue in IN/CH), lookup_addrs(ns.z.) symbolic; class, policy symbolic: up to two MissingNsAddress issues with different names; unwind 6"
+//   bound="zone without nodes, ns() = {x., ns.}; x. answered NxDomain (always an issue in IN/CH), lookup_addrs(ns.) symbolic; class, policy symbolic: up to two MissingNsAddress issues with different names; unwind 4"
 //   sym="class, policy, 1 table entry" stubs="S1,M1"
 #[kani::proof]
-#[kani::unwind(6)]
+#[kani::unwind(4)]
 fn c21_apex_ns_two_both() {
     let (e, t, cc) = apex_ns_two(Ans::NxDomain);
     kani::cover!(e.has(K_NS_ADDR, N_NSZ) && e.has(K_NS_ADDR, N_OUT), "two name servers without address");
@@ -905,12 +906,12 @@ fn c21_apex_ns_two_both() {
     kani::cover!(e.is_empty() && cc == 4, "HS: none");
 }
 
-// @harness props=C21 tier=quick mem=6 t=2400
+// @harness props=C21 tier=quick mem=6 t=2400 cbmc="--max-field-sensitivity-array-size 256"
 //   fn="validation::validate,scan_node,check_delegation_ns_address,check_glue"
-//   bound="apex in order; node d.z. {NS ns.d.z.}; lookup_addrs(ns.d.z.): each of the 5 kinds in turn (Found with symbolic A/AAAA presence, Cname, NxDomain, Referral(d.z.), WrongZone) x a symbolic answer to the glue lookup (search_below_cuts: 5 kinds, A/AAAA presence); class and glue policy symbolic; unwind 6"
+//   bound="apex in order; node d. {NS ns.d.}; lookup_addrs(ns.d.): each of the 5 kinds in turn (Found with symbolic A/AAAA presence, Cname, NxDomain, Referral(d.), WrongZone) x a symbolic answer to the glue lookup (search_below_cuts: 5 kinds, A/AAAA presence); class and glue policy symbolic; unwind 4"
 //   sym="class, policy, A/AAAA presence, glue-lookup table entry" stubs="S1,M1"
 #[kani::proof]
-#[kani::unwind(6)]
+#[kani::unwind(4)]
 fn c21_delegation_own_ns() {
     let (class, class_code) = any_class();
     let (policy, wide) = any_policy();
@@ -938,12 +939,12 @@ fn c21_delegation_own_ns() {
     kani::cover!(es[4].is_empty() && class_code == 1, "out-of-zone name server: nothing needed");
 }
 
-// @harness props=C21 tier=quick mem=6 t=1800
+// @harness props=C21 tier=quick mem=6 t=1800 cbmc="--max-field-sensitivity-array-size 256"
 //   fn="validation::validate,scan_node,check_delegation_ns_address,check_glue"
-//   bound="apex in order; node d.z. {NS ns.e.z.} where ns.e.z. lies in the SIBLING delegation e.z. (lookup answers Referral(e.z.)); the glue lookup (search_below_cuts) symbolic; class and glue policy symbolic: narrow needs no glue, wide does; unwind 6"
+//   bound="apex in order; node d. {NS ns.e.} where ns.e. lies in the SIBLING delegation e. (lookup answers Referral(e.)); the glue lookup (search_below_cuts) symbolic; class and glue policy symbolic: narrow needs no glue, wide does; unwind 4"
 //   sym="class, policy, 1 table entry" stubs="S1,M1"
 #[kani::proof]
-#[kani::unwind(6)]
+#[kani::unwind(4)]
 fn c21_delegation_sibling_ns() {
     let (class, class_code) = any_class();
     let (policy, wide) = any_policy();
@@ -957,12 +958,12 @@ fn c21_delegation_sibling_ns() {
     kani::cover!(e.is_empty() && wide && class_code == 1 && matches!(t1, Ans::Found { a: true, .. }), "wide: sibling glue present");
 }
 
-// @harness props=C21 tier=quick mem=6 t=1800
+// @harness props=C21 tier=quick mem=6 t=1800 cbmc="--max-field-sensitivity-array-size 256"
 //   fn="validation::validate,scan_node,check_delegation_ns_address,check_glue"
-//   bound="apex in order; node d.z. {NS ns.d.z., NS ns.z.}; ns.d.z. is below the cut and has no glue (concrete: always MissingGlue in IN/CH), lookup_addrs(ns.z.): each of the 5 kinds in turn (Found with symbolic A/AAAA presence; a referral names the sibling e.z., whose glue lookup fails); ns() = {x.} out of zone; class, policy symbolic; unwind 6"
+//   bound="apex in order; node d. {NS ns.d., NS ns.}; ns.d. is below the cut and has no glue (concrete: always MissingGlue in IN/CH), lookup_addrs(ns.): each of the 5 kinds in turn (Found with symbolic A/AAAA presence; a referral names the sibling e., whose glue lookup fails); ns() = {x.} out of zone; class, policy symbolic; unwind 4"
 //   sym="class, policy, A/AAAA presence" stubs="S1,M1"
 #[kani::proof]
-#[kani::unwind(6)]
+#[kani::unwind(4)]
 fn c21_delegation_two_ns() {
     let (class, class_code) = any_class();
     let (policy, wide) = any_policy();
@@ -988,10 +989,10 @@ fn c21_delegation_two_ns() {
 
 // @harness props=C21 tier=quick mem=4 t=1200
 //   fn="validation::validate,scan_node"
-//   bound="apex in order; node h.z. with, in turn, {CNAME x1}, {CNAME x2}, {CNAME x1, A}, {TXT, CNAME x2}, {A, TXT} (5 concrete zones); class, policy symbolic; unwind 6"
+//   bound="apex in order; node h. with, in turn, {CNAME x1}, {CNAME x2}, {CNAME x1, A}, {TXT, CNAME x2}, {A, TXT} (5 concrete zones); class, policy symbolic; unwind 4"
 //   sym="class, policy" stubs="S1,M1"
 #[kani::proof]
-#[kani::unwind(6)]
+#[kani::unwind(4)]
 fn c21_cname_nodes() {
     let (class, class_code) = any_class();
     let (policy, wide) = any_policy();
@@ -1007,12 +1008,12 @@ fn c21_cname_nodes() {
     kani::cover!(e5.is_empty(), "A + TXT is fine");
 }
 
-// @harness props=C21 tier=quick mem=6 t=1800
+// @harness props=C21 tier=quick mem=6 t=1800 cbmc="--max-field-sensitivity-array-size 256"
 //   fn="validation::validate,scan_node,check_delegation_ns_address"
-//   bound="one SOA, ns() = {x.} (out of zone); node *.z. {NS ns.z.}; lookup_addrs(ns.z.): each of the 5 kinds in turn (Found with symbolic A/AAAA presence; a referral names d.z., whose glue lookup fails); class, policy symbolic: NsAtWildcard (warning) always, plus the delegation checks for the target; unwind 6"
+//   bound="one SOA, ns() = {x.} (out of zone); node *. {NS ns.}; lookup_addrs(ns.): each of the 5 kinds in turn (Found with symbolic A/AAAA presence; a referral names d., whose glue lookup fails); class, policy symbolic: NsAtWildcard (warning) always, plus the delegation checks for the target; unwind 4"
 //   sym="class, policy, A/AAAA presence" stubs="S1,M1"
 #[kani::proof]
-#[kani::unwind(6)]
+#[kani::unwind(4)]
 fn c21_wildcard_ns() {
     let (class, class_code) = any_class();
     let (policy, wide) = any_policy();
@@ -1036,10 +1037,10 @@ fn c21_wildcard_ns() {
 
 // @harness props=C21 tier=quick mem=4 t=1200
 //   fn="validation::validate,scan_node,check_mx_address"
-//   bound="apex in order; apex node {MX mx.z.}; lookup_addrs(mx.z.) symbolic; class, policy symbolic; unwind 6"
+//   bound="apex in order; apex node {MX mx.}; lookup_addrs(mx.) symbolic; class, policy symbolic; unwind 4"
 //   sym="class, policy, 1 table entry" stubs="S1,M1"
 #[kani::proof]
-#[kani::unwind(6)]
+#[kani::unwind(4)]
 fn c21_mx_one() {
     let (class, class_code) = any_class();
     let (policy, wide) = any_policy();
@@ -1054,12 +1055,12 @@ fn c21_mx_one() {
     kani::cover!(e.is_empty() && class_code == 4 && matches!(t, Ans::NxDomain), "HS: no address checks");
 }
 
-// @harness props=C21 tier=quick mem=6 t=1800
+// @harness props=C21 tier=quick mem=6 t=1800 cbmc="--max-field-sensitivity-array-size 256"
 //   fn="validation::validate,scan_node,check_mx_address"
-//   bound="apex in order; node h.z. {MX ns.z., MX mx.z.}; ns.z. exists without any address (concrete; it is also the apex name server: MissingNsAddress and MissingMxAddress for the same name are different issues), lookup_addrs(mx.z.) symbolic; class, policy symbolic; unwind 6"
+//   bound="apex in order; node h. {MX ns., MX mx.}; ns. exists without any address (concrete; it is also the apex name server: MissingNsAddress and MissingMxAddress for the same name are different issues), lookup_addrs(mx.) symbolic; class, policy symbolic; unwind 4"
 //   sym="class, policy, 1 table entry" stubs="S1,M1"
 #[kani::proof]
-#[kani::unwind(6)]
+#[kani::unwind(4)]
 fn c21_mx_two() {
     let (class, class_code) = any_class();
     let (policy, wide) = any_policy();
@@ -1072,12 +1073,12 @@ fn c21_mx_two() {
     kani::cover!(e.is_empty() && class_code == 4, "HS: nothing");
 }
 
-// @harness props=C21 tier=quick mem=6 t=1800
+// @harness props=C21 tier=quick mem=6 t=1800 cbmc="--max-field-sensitivity-array-size 256"
 //   fn="validation::validate,scan_node,check_apex_ns_address,check_delegation_ns_address,check_glue,check_mx_address"
-//   bound="a zone with nothing wrong in class IN (3 nodes: apex {SOA, NS ns.z., MX mx.z., TXT}, d.z. {NS ns.d.z.} with glue, *.z. {A, TXT}); ns.z. has A, mx.z. has only AAAA, glue is an A record; class and policy symbolic (CH: the AAAA-only exchanger is a warning; HS: nothing); unwind 6"
+//   bound="a zone with nothing wrong in class IN (3 nodes: apex {NS ns., MX mx., TXT}, d. {NS ns.d.} with glue, *. {A, TXT}); ns. has A, mx. has only AAAA, glue is an A record; class and policy symbolic (CH: the AAAA-only exchanger is a warning; HS: nothing); unwind 4"
 //   sym="class, policy" stubs="S1,M1"
 #[kani::proof]
-#[kani::unwind(6)]
+#[kani::unwind(4)]
 fn c21_clean_zone() {
     let (class, class_code) = any_class();
     let (policy, wide) = any_policy();
@@ -1092,12 +1093,12 @@ fn c21_clean_zone() {
     kani::cover!(e.is_empty() && class_code == 4, "HS: no issue");
 }
 
-// @harness props=C21 tier=quick mem=6 t=1800
+// @harness props=C21 tier=thorough mem=8 t=3600 cbmc="--max-field-sensitivity-array-size 256"
 //   fn="validation::validate,scan_node,check_delegation_ns_address,check_glue,ValidationIssue::is_error"
-//   bound="a zone with six issues at once (concrete): no SOA, no NS, d.z. {NS ns.d.z. without glue, CNAME x2}, *.z. {NS x.}; class IN; glue policy symbolic; unwind 8"
+//   bound="a zone with five issues at once (concrete): no SOA, no NS, d. {NS ns.d. without glue, CNAME x2}; class IN; glue policy symbolic; unwind 7"
 //   sym="policy" stubs="S1,M1"
 #[kani::proof]
-#[kani::unwind(8)]
+#[kani::unwind(7)]
 fn c21_many_issues() {
     let (policy, wide) = any_policy();
     let mut f = base(Class::IN, 1, policy, wide, &NODES_DIRTY, &H_DIRTY);
@@ -1105,26 +1106,19 @@ fn c21_many_issues() {
     f.ns = None;
     f.table[N_NSD][0] = Ans::Referral { child: N_D };
     f.table[N_NSD][1] = Ans::Cname;
-    f.table[N_OUT][0] = Ans::WrongZone;
-    let e = run(&f, 6);
+    let e = run(&f, 5);
     kani::cover!(
-        e.missing_soa
-            && e.missing_ns
-            && e.has(K_GLUE, N_NSD)
-            && e.has(K_DUP_CNAME, N_D)
-            && e.has(K_CNAME_OTHER, N_D)
-            && e.has(K_NS_WILD, N_WILD)
-            && !e.has(K_NS_ADDR, N_OUT),
-        "six issues"
+        e.missing_soa && e.missing_ns && e.has(K_GLUE, N_NSD) && e.has(K_DUP_CNAME, N_D) && e.has(K_CNAME_OTHER, N_D),
+        "five issues"
     );
 }
 
-// @harness props=C21 tier=quick mem=6 t=1800
+// @harness props=C21 tier=quick mem=6 t=1800 cbmc="--max-field-sensitivity-array-size 256"
 //   fn="validation::validate,scan_node,check_apex_ns_address,check_delegation_ns_address,check_mx_address"
-//   bound="the same issue arising twice is reported once (concrete): ns.z. does not exist and is the name server of the apex (ns()) and of d.z.; mx.z. does not exist and is the exchanger of the apex node and of h.z. (nodes apex {MX mx.z.}, d.z. {NS ns.z.}, h.z. {MX mx.z.}); class IN/CH symbolic, policy symbolic; unwind 6"
+//   bound="the same issue arising twice is reported once (concrete): ns. does not exist and is the name server of the apex (ns()) and of d.; mx. does not exist and is the exchanger of the apex node and of h. (nodes apex {MX mx.}, d. {NS ns.}, h. {MX mx.}); class IN/CH symbolic, policy symbolic; unwind 4"
 //   sym="class in {IN, CH}, policy" stubs="S1,M1"
 #[kani::proof]
-#[kani::unwind(6)]
+#[kani::unwind(4)]
 fn c21_same_issue_once() {
     let (policy, wide) = any_policy();
     let ch: bool = kani::any();
